@@ -209,7 +209,9 @@ func convertRequestToInternalStats(req *structs.GroupByRequest, usedByTimechart 
 				}
 				idx = curId
 			} else {
-				if usedByTimechart {
+				// count(<field>) counts the records that have the field: it needs a cell of its own,
+				// count(*) is the count of the bucket
+				if usedByTimechart || m.MeasureCol != "*" {
 					aggregations.AddAggCountToTimechartRunningStats(m, &allConvertedMeasureOps, &allReverseIndex, colToIdx, idx)
 					idx++
 					continue
@@ -736,8 +738,8 @@ func (gb *GroupByBuckets) updateEValFromRunningBuckets(mInfo *structs.MeasureAgg
 	switch mInfo.MeasureFunc {
 	case sutils.Count:
 		incrementIdxBy = 1
-		if mInfo.ValueColRequest != nil || usedByTimechart {
-			if !usedByTimechart && len(mInfo.ValueColRequest.GetFields()) == 0 {
+		if mInfo.ValueColRequest != nil || usedByTimechart || mInfo.MeasureCol != "*" {
+			if mInfo.ValueColRequest != nil && !usedByTimechart && len(mInfo.ValueColRequest.GetFields()) == 0 {
 				batchErr.AddError("GroupByBuckets.AddResultToStatRes:COUNT", fmt.Errorf("zero fields of ValueColRequest for count: %v", mInfoStr))
 				return
 			}
